@@ -22,6 +22,7 @@ import PyAbel.Model.Profiles
 import PyAbel.Model.RbasexCache
 import PyAbel.Model.BasexCache
 import PyAbel.Model.RbasexBasis
+import PyAbel.Model.SPolyTerm
 import PyAbel.Gen.Tables
 open PyAbel PyAbel.Proto
 
@@ -393,6 +394,11 @@ def handle (toks : List String) : String :=
   -- rbxcache op op …   →  history of rbasex's in-memory transform caches
   | "rbxcache" :: rest => rbxHistory rest
   | "bxcache" :: rest => bxHistory rest
+  -- spterm m n rmin rmax r cos  →  SPolynomial(r, cos, rmin, rmax, c = e_{m,n}).abel at one point
+  | ["spterm", m, n, rmin, rmax, r, cs] =>
+    match m.toNat?, n.toNat?, parseFloat rmin, parseFloat rmax, parseFloat r, parseFloat cs with
+    | some m, some n, some rmin, some rmax, some r, some cs => s!"ok 1 1 " ++ showFloats [SPoly.term m n rmin rmax r cs]
+    | _, _, _, _, _, _ => "bad-op"
   -- rbxbasis Rmax n   →  the (Rmax+1)² matrix P[R, r] = p_{R;n}(r) of rbasex._bs_rbasex for the angular order n
   | ["rbxbasis", rmax, n] =>
     match rmax.toNat?, n.toNat? with
@@ -403,7 +409,7 @@ def handle (toks : List String) : String :=
   | "hansen" :: fwd :: hold :: dr :: rest =>
     match parseBool fwd, parseBool hold, parseFloats [dr], parseFloats rest with
     | some fwd, some hold, some dr, some xs =>
-      if xs.size < 3 then "bad-op" else
+      if xs.size < 2 then "bad-op" else
       let h := fun k => PyAbel.Gen.hansenH.getD k 0.0
       let lam := fun k => PyAbel.Gen.hansenLam.getD k 0.0
       let out := HansenLaw.transform h lam PyAbel.Gen.hansenH.length fwd hold xs.size (dr.getD 0 1.0) (fun i => xs.getD i 0.0)
@@ -473,6 +479,17 @@ def handle (toks : List String) : String :=
       let t := centerImageTrim r c odd sq
       s!"ok {t.1} {t.2.1} {t.2.2.1} {t.2.2.2}"
     | _, _, _, _ => "bad-op"
+  -- explicit crop rows cols odd_size square o0 o1  →  center_image with an explicit whole-pixel origin: output sizes and, per output
+  -- row / column, the input row / column it copies (-1 = zero fill), or "refuse"
+  | ["explicit", crop, r, c, odd, sq, o0, o1] =>
+    match crop.toNat? >>= cropOfNat, r.toNat?, c.toNat?, parseBool odd, parseBool sq, o0.toInt?, o1.toInt? with
+    | some crop, some r, some c, some odd, some sq, some o0, some o1 =>
+      match centerImageExplicit crop r c odd sq o0 o1 with
+      | none => "ok refuse"
+      | some (rm, cm) =>
+        let show_ := fun (m : AxisMap) => " ".intercalate ((List.range m.size).map fun i => match m.src i with | some k => toString k | none => "-1")
+        s!"ok {rm.size} {cm.size} | {show_ rm} | {show_ cm}"
+    | _, _, _, _, _, _, _ => "bad-op"
   -- round num den  →  Python round() of the exact rational num/den (half to even)
   | ["round", num, den] =>
     match num.toInt?, den.toNat? with
